@@ -165,7 +165,9 @@ namespace mtbb {
     Func parallel_for_aux(Index first,
                           Index a, Index b, Index step,
                           const Func& f) {
-    if (b - a == 1) {
+    if (b - a <= 0) {
+      /* empty range: nothing to do */
+    } else if (b - a == 1) {
       f(first + a * step);
     } else {
       mtbb::task_group tg;
